@@ -91,6 +91,10 @@ def rules_ir(ctx):
         n_defined += d['functions_defined']
         ext_used |= set(d['externals_used'])
         ext_unlisted |= set(d['externals_unlisted'])
+        by_name = {}
+        for f in d['functions']:
+            by_name.setdefault(f['name'], f)
+            by_name.setdefault(f['name'][:100], f)       # witnesses carry the callee name cut at 100 characters
         for f in d['functions']:
             nm = f['name']
             kind = None
@@ -128,8 +132,31 @@ def rules_ir(ctx):
             req = 'no store through `this` (at any depth) or to a global on any call chain' if kind != 'iterator' else 'no store to a global on any call chain (the pointee of `super` is decided by the AST engine)'
             if bad:
                 w = bad[0]
-                obs.append(Ob('EFFECT-IR', None, 0, req, f"{nm[:160]}: may store to {w['root']} via {w['how']} {w.get('callee', '')[:100]} ({os.path.basename(w['file'])}:{w['line']})",
-                              VIOLATED, arm=_arm(nm), detail={'subject': _subject(nm), 'where': f"{w['file']}:{w['line']}"}, unit=mname))
+                # The points-to sets of this analysis are field-insensitive: a copy or move of an object that holds both a pointer to
+                # the index (Iterator::super) and buffers of its own (the cursor vector) makes "the pointee of something stored in the
+                # copy" include the index, although the stores go to the freshly allocated buffer.  A report whose every witness is a
+                # copy/move constructor or assignment is therefore not a verdict (the AST EFFECT engine, which is field-sensitive,
+                # decides those functions in both tiers).
+                def copyish(w_, depth=0):
+                    c_ = w_.get('callee', '')
+                    m_ = re.search(r'([A-Za-z_]\w*)(<.*>)?::([A-Za-z_]\w*)\(', c_)
+                    is_ctor = bool(m_) and m_.group(1) == m_.group(3) and ('const&)' in c_ or '&&)' in c_)
+                    if w_.get('how') != 'call':
+                        return False
+                    if is_ctor or '::operator=(' in c_:
+                        return True
+                    # a call of another reader whose own stores through `this` all come from copies (begin() -> lower_bound())
+                    g_ = by_name.get(c_)
+                    if g_ is None or depth > 4:
+                        return False
+                    gthis = f"arg{g_['sret']}"
+                    gb = [x for x in g_['writes'] if x['root'].rstrip('*') == gthis or x['root'].startswith('global:')]
+                    return bool(gb) and all(copyish(x, depth + 1) for x in gb)
+                st_ = UNDECIDED if all(copyish(x) for x in bad) else VIOLATED
+                w = bad[0] if st_ == UNDECIDED else [x for x in bad if not copyish(x)][0]
+                obs.append(Ob('EFFECT-IR', None, 0, req, f"{nm[:160]}: may store to {w['root']} via {w['how']} {w.get('callee', '')[:100]} ({os.path.basename(w['file'])}:{w['line']})" +
+                              (' [through a copy/move only: field-insensitive, not a verdict]' if st_ == UNDECIDED else ''),
+                              st_, arm=_arm(nm), detail={'subject': _subject(nm), 'where': f"{w['file']}:{w['line']}"}, unit=mname))
             elif und:
                 w = und[0]
                 obs.append(Ob('EFFECT-IR', None, 0, req, f"{nm[:160]}: {w['root'][:140]} ({os.path.basename(w['file'])}:{w['line']})", UNDECIDED, arm=_arm(nm),
